@@ -159,3 +159,36 @@ Section Guard.
     - intros p Hp. cbn. rewrite Hp. apply lookup_remove_other. exact Hp.
   Qed.
 End Guard.
+
+(* ---------- container kinds do not matter: a list / tuple of scalars has the content of the one-dimensional array
+   (dict_to_list in rdms_from_dict, lists reloaded as arrays from HDF5) ---------- *)
+Lemma stack_scalars {X} (f : X -> leaf) (xs : list X) :
+  stack (map (fun x => NArr [] [f x]) xs) = Some ([], map f xs).
+Proof.
+  induction xs as [|a [|b t] IH]; [reflexivity|reflexivity|].
+  change (map (fun x => NArr [] [f x]) (a :: b :: t)) with (NArr [] [f a] :: map (fun x => NArr [] [f x]) (b :: t)).
+  cbn [stack]. cbn [map] in IH. cbn [map]. rewrite IH. reflexivity.
+Qed.
+
+Lemma all_some_map_some {X Y} (g : X -> Y) (xs : list X) : all_some (map (fun x => Some (g x)) xs) = Some (map g xs).
+Proof. induction xs as [|a xs IH]; [reflexivity|]. cbn. rewrite IH. reflexivity. Qed.
+
+Theorem number_list_has_array_content (xs : list num) :
+  nf_of (VList (map VNum xs)) = nf_of (VArr (ANum [length xs] xs)).
+Proof.
+  cbn [nf_of]. rewrite map_map. cbn [nf_of].
+  rewrite (all_some_map_some (fun x => NArr [] [LNum (canon_num x)]) xs).
+  rewrite (stack_scalars (fun x => LNum (canon_num x)) xs). rewrite map_length. reflexivity.
+Qed.
+
+Theorem string_list_has_array_content (xs : list ustr) :
+  nf_of (VList (map VStr xs)) = nf_of (VArr (AStr [length xs] xs)).
+Proof.
+  cbn [nf_of]. rewrite map_map. cbn [nf_of].
+  rewrite (all_some_map_some (fun s => NArr [] [LStr s]) xs).
+  rewrite (stack_scalars LStr xs). rewrite map_length. reflexivity.
+Qed.
+
+(* a scalar has the content of the zero-dimensional array HDF5 returns for it *)
+Theorem scalar_has_array_content (x : num) : nf_of (VNum x) = nf_of (VArr (ANum [] [x])).
+Proof. reflexivity. Qed.
